@@ -9,7 +9,36 @@ POLICIES = ['local', 'local-priority-fifo', 'local-priority-lifo', 'static', 'st
             'abp-priority-fifo', 'abp-priority-lifo', 'shared-priority']
 
 
+# fixed runs, always first (corpus style): "meet" keeps more tasks alive and blocked in one queue than
+# thread_queue's soft limit (max_thread_count = 1000) while further tasks are still staged there, so
+# the staged tasks can only be started through the over-the-limit branch of add_new_always
+FIXED = [[9001, 0, 'meet', 1200, '--pika:threads=1', '--pika:scheduler=local-priority-fifo'],
+         [9002, 50, 'meet', 1100, '--pika:threads=2', '--pika:scheduler=static-priority']]
+
+
+def zoo_runs(rng, tier):
+    out = []
+    if tier == 'thorough':
+        for pol in POLICIES:
+            for th in (1, 2, 4, 8, 16):
+                for steal in (True, False):
+                    out.append([rng.below(1 << 30), rng.choice([0, 100, 300]), 'zoo', rng.choice([8, 16, 32]),
+                                f'--pika:threads={th}', f'--pika:scheduler={pol}'] + ([] if steal else ['--verif:nosteal']))
+        out += [[rng.below(1 << 30), 100, 'meet', rng.choice([1100, 1300, 1500]), f'--pika:threads={th}', f'--pika:scheduler={pol}']
+                for pol in ('local', 'abp-priority-fifo', 'shared-priority') for th in (1, 2)]
+    else:
+        for i, pol in enumerate(POLICIES):
+            th = (1, 4, 2, 8, 3, 16, 2, 4)[i]
+            out.append([rng.below(1 << 30), rng.choice([0, 100, 300]), 'zoo', rng.choice([8, 12]),
+                        f'--pika:threads={th}', f'--pika:scheduler={pol}'] + (['--verif:nosteal'] if i % 3 == 2 else []))
+    return out
+
+
 def runs(rng, tier):
+    return FIXED + base_runs(rng, tier) + zoo_runs(rng, tier)
+
+
+def base_runs(rng, tier):
     out = []
     if tier == 'thorough':
         for pol in POLICIES:
@@ -36,13 +65,14 @@ def nontrivial(raw):
 
 
 def stats(raw):
-    return {k: raw.count(' ' + k + ' ') for k in ('sw.tagged', 'sw.restore2', 'sw.set', 'task.rebind', 'sts.helper', 'sas.abort', 'sas.retry', 'body.enter')}
+    return {k: raw.count(' ' + k + ' ') for k in ('sw.tagged', 'sw.restore2', 'sw.set', 'task.rebind', 'sts.helper', 'sas.abort', 'sas.retry', 'body.enter', 'co.enter', 'co.yield', 'co.resume', 'co.return')}
 
 
 e2check.run(dict(
-    prop='C01', model='sched', harness='e2/sched.cpp', bin='e2_sched', props=['C01'], translators=['stateword.py'],
+    prop='C01', model='schedco', harness='e2/sched.cpp', bin='e2_sched', props=['C01'], translators=['stateword.py'],
     runs=runs, extra_runs=extra_runs, nontrivial=nontrivial, stats=stats, par=3, timeout_s=900,
-    rule='generated task programs (fan-out trees with yields, semaphore hand-shakes, boosted spin-waits, pika::thread and sender tasks, mixed priorities/stack sizes, 1-3 external submitter threads) on the live runtime for every scheduling policy and several worker counts, with PRNG timing perturbation at the instrumented sites; non-trivial = the run contains at least one suspension wake-up and one recycled thread object; distinct = distinct argv',
-    assumptions=['body-entered-exactly-once is observed by per-task counters (monitor), the theorems cover the state-word/queue protocol',
-                 'queue back-ends are treated as bags of entries (C17 covers them)'],
+    rule='generated task programs (fan-out trees with yields, semaphore hand-shakes, boosted spin-waits, pika::thread and sender tasks, mixed priorities/stack sizes, 1-3 external submitter threads; "zoo": executed callables, scheduled senders with and without worker hints, register_work with run_now and staged, detached and joined pika::thread, mutex+condition_variable / latch / semaphore suspensions, recycling waves over all five stack classes, all five priorities, stealing switched off through the scheduler mode; "meet": more simultaneously blocked tasks per queue than max_thread_count while others are still staged) on the live runtime for every scheduling policy and several worker counts, with PRNG timing perturbation at the instrumented sites; non-trivial = the run contains at least one suspension wake-up and one recycled thread object; distinct = distinct argv',
+    assumptions=['the thread function is entered at most once per incarnation, resumed otherwise, and its return is what yields `terminated`: theorems over the coroutine layer Model/SchedCo (hooks co.enter/co.yield/co.resume/co.return); the harness-level body counters remain as independent monitors',
+                 'queue back-ends are treated as bags of entries (C17 covers them); staged task descriptions are not modelled (a task enters the model when its thread object is created)',
+                 'progress is proved in enabledness form (stuck state => terminated or legitimately suspended; a token can always be turned into a run by a free worker); fairness of the OS scheduler and of the queue back-ends is assumed'],
 ))
